@@ -613,6 +613,75 @@ def pageHits {α : Type} (ranking : List α) (pagenum pagelen : Nat) : Except Pa
   | .error e => .error e
   | .ok p => .ok (((ranking.take (pagenum * pagelen)).drop p.offset).take p.pagelen)
 
+/-! ### the un-scored stack `FilterCollector(CollapseCollector(SortingCollector))` and `search_page`
+
+`Searcher.search(q, sortedby=…, reverse=…, limit=…, filter=…, mask=…, collapse=…, collapse_limit=…,
+collapse_order=…)`: `Searcher.collector` builds `SortingCollector(sortedby, limit, reverse)`, wraps it in a
+`CollapseCollector` and that in a `FilterCollector`. `FilterCollector.collect_matches` refuses documents
+*before* the collapser sees them; `CollapseCollector.collect` orders the documents of a key by
+`orderer.key_for` or, without `collapse_order`, by `child.sort_key` — `SortingCollector.sort_key` is the
+categorizer's key whatever `reverse` says —, talks to the child through `collect`/`remove`
+(`SortingCollector.collect` appends, `Collector.remove` pops the pair and discards the document from
+`docset`), and `SortingCollector.results` sorts what is left. -/
+
+structure View where
+  /-- the `sortedby` key of a document -/
+  key : Nat → Key
+  limit : Option Nat := none
+  reverse : Bool := false
+  allow : Option (List Nat) := none
+  restrict : Option (List Nat) := none
+  /-- collapse facet: `ckey` (none = no key), `collapse_limit`, optional `collapse_order` facet -/
+  collapse : Option ((Nat → Option Int) × Nat × Option (Nat → Key)) := none
+
+/-- What the caller sees of a sorted search. -/
+structure ViewResult where
+  /-- `results.top_n` as `(sortkey, docnum)` -/
+  items : List (Key × Nat)
+  /-- `len(results)`: `count()` through the wrappers = `len(docset)` of the `SortingCollector` -/
+  len : Nat
+  /-- `results.filtered_count` -/
+  filtered : Nat
+  /-- `results.collapsed_counts` -/
+  counts : List (Int × Nat)
+deriving Repr
+
+/-- `search(q, sortedby=…, …)` over the matched documents in collection order. -/
+def searchSorted (v : View) (docs : List Nat) : Except Err ViewResult :=
+  let f := filterDocs v.allow v.restrict docs
+  match v.collapse with
+  | none =>
+    .ok { items := sortingResults v.key v.limit v.reverse f.1, len := f.1.length, filtered := f.2, counts := [] }
+  | some (ckey, climit, order) =>
+    match collapseRun ckey (order.getD v.key) climit f.1 {} with
+    | .error e => .error e
+    | .ok st =>
+      .ok { items := sortingResults v.key v.limit v.reverse st.kept, len := st.kept.length, filtered := f.2,
+            counts := st.counts }
+
+/-- Errors of `Searcher.search_page`. -/
+inductive PageViewErr where
+  | page (e : PageErr)   -- `ValueError("pagenum must be >= 1")`, `ZeroDivisionError` of `ResultsPage`
+  | limit                -- `pagelen = 0`: `search(limit=0)` → `ValueError("limit must be >= 1")`
+  | collect (e : Err)
+deriving Repr, DecidableEq
+
+/-- `searching.py: Searcher.search_page(q, pagenum, pagelen, sortedby=…, …)`: `pagenum < 1` raises,
+    `results = self.search(q, limit=pagenum * pagelen, **kwargs)` (`Searcher.collector` rejects
+    `limit < 1`), then `ResultsPage(results, pagenum, pagelen)` whose `total` is `len(results)` and whose
+    hits are `results[offset : offset + pagelen]` (`Results.__getitem__` on `top_n`). -/
+def searchPageSorted (v : View) (docs : List Nat) (pagenum pagelen : Nat) :
+    Except PageViewErr (Page × List (Key × Nat)) :=
+  if pagenum < 1 then .error (.page .valueError)
+  else if pagenum * pagelen < 1 then .error .limit
+  else
+    match searchSorted { v with limit := some (pagenum * pagelen) } docs with
+    | .error e => .error (.collect e)
+    | .ok r =>
+      match mkPage r.len pagenum pagelen with
+      | .error e => .error (.page e)
+      | .ok p => .ok (p, (r.items.drop p.offset).take p.pagelen)
+
 /-! ### `sorting.py: PostingCategorizer` -/
 
 /-- The cached order array: `array[docid] = i` for every posting of the `i`-th sortable term (later
